@@ -239,4 +239,10 @@ func main() {
 		fail("%v", err)
 	}
 	genMaxDepthSel(*repo, *out)
+	for _, g := range generators {
+		g(*repo, *out)
+	}
 }
+
+// generators: further translators register themselves here from their own file's init()
+var generators []func(repo, out string)
